@@ -170,7 +170,6 @@ func checkC03(c *Ctx) {
 	flowC03(c)
 }
 
-
 func c03Methods(c *Ctx, mt int64, v avariant, n, m int) {
 	r := c.Run
 	uplink := mt == 2 || mt == 4
